@@ -672,11 +672,22 @@ func (p *Printer) sepAfter(k *model.Value) string {
 
 func (p *Printer) AppendLST(spec refsym.LSTSpec) {
 	var sb strings.Builder
-	ann := "$ion_symbol_table"
+	// the same symbol may be spelled unquoted, quoted or by its system id
+	spell := func() string {
+		if p.C.Flip("lst:alt-spelling") {
+			return []string{"'$ion_symbol_table'", "$3", "'\\x24ion_symbol_table'"}[p.C.Intn(3)]
+		}
+		return "$ion_symbol_table"
+	}
+	ann := spell()
 	sb.WriteString(ann + p.optWS() + "::" + p.optWS() + "{")
 	parts := []string{}
 	if spec.Append {
-		parts = append(parts, "imports"+p.optWS()+":"+p.optWS()+"$ion_symbol_table")
+		imp := "imports"
+		if p.C.Flip("lst:alt-spelling") {
+			imp = []string{"'imports'", "$6", "\"imports\""}[p.C.Intn(3)]
+		}
+		parts = append(parts, imp+p.optWS()+":"+p.optWS()+spell())
 	} else if len(spec.Imports) > 0 {
 		var is []string
 		for _, imp := range spec.Imports {
